@@ -22,6 +22,17 @@
   Repaired in /repo and therefore plain positive theorems now: the organism name (F27, repo 69bb3bf:
   written unwrapped), the SOURCE text (F28, repo 3d74d27: written as it is), toggle qualifiers (F29,
   repo 2dd2956: the value reads back empty) — `source_roundtrip`, `toggle_roundtrip`.
+
+  Beyond read ∘ write (sections at the end of the file):
+    byte fixed point     write reg' (readBack reg r p) = write reg r, per field group and composed
+                         (`write_read_write_partial`, guard `namesDistinct`; full statement refuted at a
+                         hand-built `Props` with a repeated row name), second generation without guard
+                         (`reread_fixed_point`, `read_back_idempotent`)
+    learning             reading under a registry that has learned names, streams in which records
+                         teach the registry names (`read_stream_learning`), learning never changes what
+                         is written (`write_learned_same`, `write_pipeline_same`)
+    closure              `Writable` under reverse / complement / rotate / delete / erase / insert /
+                         embed / concat (`writable_*`), `WritableRecord` under complement
 -/
 import Gts.Lemmas.GbReadWrite
 import Gts.Lemmas.GbFixed
@@ -714,6 +725,23 @@ theorem writable_complement (reg : Registry) (F : Fields) (s : Seq) (hw : Writab
     ∃ s', s.complementRec = some s' ∧ Writable reg (ofSeq F s') s'.bytes = true :=
   ⟨_, complementRec_eq s, GenBank.writable_complement reg F s hw⟩
 
+/-- **`gts.Complement`, the whole round-trip domain**: `WritableRecord` (`Writable` AND canonical
+locations, the decidable domain of `read_write_canon`) is closed under `gts.Complement` —
+`Location.Complement()` wraps a canonical location or unwraps a wrapped one.  The complemented
+record is therefore written, read back and re-written as `read_write_canon` and
+`write_read_write_partial` say. -/
+theorem writable_record_complement (reg : Registry) (F : Fields) (s : Seq)
+    (hw : WritableRecord reg (ofSeq F s) s.bytes = true) :
+    ∃ s', s.complementRec = some s' ∧ WritableRecord reg (ofSeq F s') s'.bytes = true := by
+  simp only [WritableRecord, Bool.and_eq_true] at hw
+  refine ⟨_, complementRec_eq s, ?_⟩
+  simp only [WritableRecord, Bool.and_eq_true]
+  refine ⟨GenBank.writable_complement reg F s hw.1, ?_⟩
+  have h2 := hw.2
+  simp only [ofSeq, List.all_map, List.all_eq_true] at h2 ⊢
+  intro f hf
+  exact canonP_complement _ (h2 f hf)
+
 /-- **`gts.Rotate`** by any amount keeps the record writable. -/
 theorem writable_rotate (reg : Registry) (F : Fields) (s : Seq) (n : Int)
     (hw : Writable reg (ofSeq F s) s.bytes = true) :
@@ -768,7 +796,8 @@ def editGuest : Seq := ⟨[⟨"gene", .compl (.ranged 0 3 false false), [["gene"
 example : Writable Registry.default (ofSeq locusWitness editHost) editHost.bytes = true ∧
     Writable Registry.default (ofSeq sampleRecord.fields editGuest) editGuest.bytes = true ∧
     editHost.reverse.bytes ≠ editHost.bytes ∧ 0 < (editHost.delete 2 5).bytes.length ∧
-    editHost.bytes.length + editGuest.bytes.length < 10 ^ 9 := by
-  refine ⟨by decide +kernel, by decide +kernel, by decide +kernel, by decide +kernel, by decide +kernel⟩
+    editHost.bytes.length + editGuest.bytes.length < 10 ^ 9 ∧
+    WritableRecord Registry.default (ofSeq locusWitness editHost) editHost.bytes = true := by
+  refine ⟨by decide +kernel, by decide +kernel, by decide +kernel, by decide +kernel, by decide +kernel, by decide +kernel⟩
 
 end Gts.C01
